@@ -1,5 +1,6 @@
 // nifsim — profile registry and initial-state factory.
 #include "sim.hpp"
+#include "edits.hpp"
 
 namespace sim {
 
@@ -17,7 +18,7 @@ ProfileFn findProfile(const std::string& name) {
 bool synthInitial(const json& spec, NifFile& nif, Ctx& ctx, std::string* fileBytes);    // gen.cpp
 bool builderInitial(const json& spec, NifFile& nif, Ctx& ctx);  // builders.cpp
 
-bool makeInitial(const json& src, NifFile& nif, Ctx& ctx, std::string* fileBytes) {
+static bool makeInitial0(const json& src, NifFile& nif, Ctx& ctx, std::string* fileBytes) {
 	if (src.contains("sample")) {
 		auto it = samples().find(src["sample"].get<std::string>());
 		if (it == samples().end()) return false;
@@ -41,6 +42,32 @@ bool makeInitial(const json& src, NifFile& nif, Ctx& ctx, std::string* fileBytes
 		return true;
 	}
 	return false;
+}
+
+std::string relabelTypes(const std::string& F, const nifparse::Parsed& p0, const std::set<size_t>& sel, bool sameLen); // filechecks.cpp
+
+// "edits": [edit steps] may follow any kind of initial state (a model after an edit history as a stored file)
+bool makeInitial(const json& src, NifFile& nif, Ctx& ctx, std::string* fileBytes) {
+	std::string bytes;
+	if (!makeInitial0(src, nif, ctx, src.contains("relabel") ? &bytes : fileBytes)) return false;
+	if (src.contains("relabel")) {
+		// the file is loaded by a reader that lacks factories for some of its block types (F-SKEW)
+		if (bytes.empty()) bytes = saveNif(nif, SaveSpec()).bytes;
+		auto p0 = nifparse::parse(bytes);
+		if (!p0.ok || !p0.hasSizes || p0.types.empty()) return false;
+		std::set<size_t> sel;
+		for (auto& v : src["relabel"]) sel.insert(size_t(v.get<uint64_t>() % p0.types.size()));
+		std::string fp = relabelTypes(bytes, p0, sel, true);
+		if (loadNif(nif, fp).rc != 0) return false;
+		if (fileBytes) *fileBytes = fp;
+		ctx.probe("initial_state_with_unknown_blocks");
+		ctx.fault("F-SKEW");
+	}
+	if (src.contains("edits")) {
+		for (auto& e : src["edits"]) applyEdit(nif, e, ctx);
+		if (fileBytes) fileBytes->clear(); // the bytes no longer describe the model
+	}
+	return true;
 }
 
 } // namespace sim
